@@ -299,9 +299,9 @@ fn write_all_or_nothing(dest: &Path, bytes: &[u8]) -> std::io::Result<()> {
         return write(&dest, bytes);
     }
 
-    let mut tmp = dest.clone().into_os_string();
-    tmp.push(format!(".tmp{}", std::process::id()));
-    let tmp = PathBuf::from(tmp);
+    // A short name of its own: a suffix on the destination's name would be too long for names
+    // close to the file system's limit
+    let tmp = dest.with_file_name(format!(".lace-tmp{}", std::process::id()));
     let result = write(&tmp, bytes).and_then(|()| fs::rename(&tmp, &dest));
     if result.is_err() {
         let _ = fs::remove_file(&tmp);
